@@ -43,3 +43,22 @@ Proof.
     auto; first [ exact I | (eexists; split; reflexivity) | discriminate | (intros []) ].
 Qed.
 Print Assumptions C08_old_numbers_are_fresh.
+
+(* ---------- the same at the level of the BYTES of state.json (JsonSj.v) ----------
+   Whatever state.json holds - a text that is not a readable state (cut short, emptied, garbled, a member missing or
+   repeated, an unknown event type) or a readable state recorded for another release - the first init of this release
+   discards everything. *)
+From UV Require Import Json JsonText JsonState JsonSj.
+Theorem C08_release_change_by_file_content :
+  forall sha sigok zdec base (d : disk) (bytes : Base.bytes) (relv : string) (y : yaml_in) (c : cfg),
+    cfg_of relv y = Some c ->
+    sj d = sj_of_file bytes ->
+    (sj_of_file bytes = JGarbage \/ exists s, sj_of_file bytes = JOk s /\ rel s <> relv) ->
+    step sha sigok zdec base {| w_disk := d; w_cfg := None |} (OInit relv y true) =
+    ({| w_disk := fresh_disk relv; w_cfg := Some c |}, RBool true, []).
+Proof.
+  intros sha sigok zdec base d bytes relv y c Hc Hsj H.
+  apply release_change_init; [exact Hc|]. unfold other_release. rewrite Hsj.
+  destruct H as [-> | (s & -> & Hne)]; intros s' E; [discriminate|]. injection E as <-. exact Hne.
+Qed.
+Print Assumptions C08_release_change_by_file_content.
